@@ -29,6 +29,11 @@ def comment_only(fn: ast.AST, name: str, depth=0) -> tuple[bool, str]:
             if isinstance(tg, ast.Name) and tg.id == name:
                 if isinstance(v, ast.List) and not v.elts:
                     continue
+                if isinstance(v, ast.Name) and v.id != name:
+                    ok, why = comment_only(fn, v.id, depth + 1)  # a plain copy holds what the copied list holds
+                    if not ok:
+                        return False, why
+                    continue
                 if isinstance(v, ast.Call) and callee(v) == "list" and v.args and isinstance(v.args[0], ast.Name):
                     ok, why = comment_only(fn, v.args[0].id, depth + 1)
                     if not ok:
